@@ -212,11 +212,14 @@ Proof.
 Qed.
 
 (* appending whole records to a file *)
-Lemma append_all_ok rs' : forall l, Forall (fun r => len (encode_body r) <= maxlen) rs' ->
+(* a record `append` accepts and the reader gives back *)
+Definition rec_ok (r : wrec) : Prop := body_ok (encode_body r) r /\ rec_too_deep r = false.
+
+Lemma append_all_ok rs' : forall l, Forall (fun r => len (encode_body r) <= maxlen /\ rec_too_deep r = false) rs' ->
   append_all l rs' = Some (l ++ log_of (map encode_body rs')).
 Proof.
   induction rs' as [|r rs' IH]; intros l H; [cbn; now rewrite app_nil_r|].
-  inversion H as [|? ? Hr Hrest]; subst. cbn [append_all map log_of]. unfold append. rewrite checks1.
+  inversion H as [|? ? [Hr Hdeep] Hrest]; subst. cbn [append_all map log_of]. unfold append. rewrite Hdeep, checks1.
   change (1 =? 1) with true. cbn [andb].
   fold maxlen. destruct (maxlen <? len (encode_body r)) eqn:E; [lia|].
   rewrite IH by exact Hrest. now rewrite <- app_assoc.
@@ -227,7 +230,7 @@ Qed.
 Theorem commit_after_tail l rs t txs (newtx : tx) t2 :
   valid_log l rs -> next_frame t = NStop -> replay rs None [] [] = Some txs ->
   forallb (fun r => negb (is_marker r)) (snd newtx) = true ->
-  Forall (fun r => body_ok (encode_body r) r) (commit_records newtx) ->
+  Forall rec_ok (commit_records newtx) ->
   next_frame t2 = NStop ->
   exists l1 l2,
     open_log (l ++ t) = inl (l1, txs) /\
@@ -240,8 +243,8 @@ Proof.
   exists l, (l ++ log_of (map encode_body (commit_records newtx))).
   assert (Hv2 : valid_log (l ++ log_of (map encode_body (commit_records newtx))) (rs ++ commit_records newtx)).
   { destruct Hv as (bs & -> & Hb). exists (bs ++ map encode_body (commit_records newtx)). split; [now rewrite log_of_app|].
-    apply Forall2_app; [exact Hb|]. clear -Hnew. induction Hnew; constructor; assumption. }
+    apply Forall2_app; [exact Hb|]. clear -Hnew. induction Hnew as [|r rs' [H _] _ IH]; constructor; assumption. }
   split; [exact Ho|]. split.
-  - apply append_all_ok. clear -Hnew. induction Hnew as [|r rs' [[_ H] _] _ IH]; constructor; assumption.
+  - apply append_all_ok. clear -Hnew. induction Hnew as [|r rs' [[[_ H] _] Hd] _ IH]; constructor; [split|]; assumption.
   - split; [exact Hv2|]. apply (tail_tolerated _ _ t2 _ Hv2 Ht2). now apply replay_commit.
 Qed.
